@@ -92,8 +92,19 @@ def affine(n, param):
 
 def rows(core):
     body = core.hir_fn("blots_core::units::get_all_units", inline=False)["body"]
+    # the catalogue may live in a helper of the module or in a static / const table that get_all_units copies
+    bodies, seen_ = [body], {"blots_core::units::get_all_units"}
+    for _ in range(3):
+        for b_ in list(bodies):
+            for x in H.walk(b_):
+                d_ = x.get("def") if H.kind(x) == "Call" else ((x.get("res") or {}).get("def") if H.kind(x) == "Path" else None)
+                if d_ and d_.startswith("blots_core::units::") and d_ not in seen_ and not d_.startswith("blots_core::units::Unit::new_"):
+                    tgt = core.hir.get(d_) or core.statics.get(d_)
+                    if tgt is not None and tgt.get("body") is not None:
+                        seen_.add(d_)
+                        bodies.append(tgt["body"])
     out = []
-    for n in H.walk(body):
+    for n in [x for b_ in bodies for x in H.walk(b_)]:
         if H.kind(n) == "Call" and (n.get("def") or "").startswith("blots_core::units::Unit::new_"):
             ctor = H.last(n["def"])
             args = n["args"]
